@@ -246,6 +246,30 @@ def longlane_behaviour(rng, alg, fam, a, b, biglen=None, drain=False):
     return cmds
 
 
+def refuse_matrix(rng, alg, fam):
+    """every context state x every flags word: one probe submit each (the spec decides which probes must be refused and with
+    which codes; an accepted probe must then behave as an ordinary submit)"""
+    B = BLOCK[alg]
+    out = []
+    for state in ("fresh", "idle", "inflight-body", "inflight-pad", "complete"):
+        for f in (0, 1, 2, 3, 8):
+            b = rng.randrange(2, 1 << 20)
+            cmds = ["hmgr %s %s 2" % (alg, fam)]
+            if state == "idle":
+                cmds.append("hsub 0 1 %d 0 %d e" % (b, rng.randrange(1, B)))
+            elif state == "inflight-body":
+                cmds.append("hsub 0 1 %d 0 %d e" % (b, 3 * B + rng.randrange(B)))
+            elif state == "inflight-pad":
+                cmds.append("hsub 0 3 %d 0 %d e" % (b, rng.randrange(0, B - LENF[alg] - 1)))
+            elif state == "complete":
+                cmds += ["hsub 0 3 %d 0 %d e" % (b, rng.randrange(0, 3 * B)), "hdrain 4"]
+            cmds.append("hsub 0 %d %d 5000 %d %s" % (f, b, rng.choice([0, 1, B, B + 7]), pick_place(rng)))
+            cmds.append("hsub 1 3 %d 9000 %d e" % (b + 1, rng.randrange(0, 2 * B)))     # an unrelated context alongside
+            cmds += ["hdrain 6", "hend"]
+            out.append(cmds)
+    return out
+
+
 CLASS_PATTERNS = ["equal", "minlane", "flushk", "stream1", "reuse", "drainreuse", "threetrip", "longlane", "overfill"]
 
 
